@@ -215,6 +215,15 @@ def make_programs(ctx):
     ]
     assert len(corpus) == N_CORPUS
     progs = [list(p) for p in corpus]
+    seen_p = {repr(p) for p in progs}
+    for f in sorted(os.listdir(os.path.join(core.VERIF, "findings"))):   # witnesses of repaired defects stay in the corpus
+        if f.startswith("C11-") and f.endswith(".json"):
+            with open(os.path.join(core.VERIF, "findings", f)) as fh:
+                st = [_tup(x) for x in json.load(fh).get("replay", {}).get("steps_json", [])]
+            if repr(st) not in seen_p:
+                seen_p.add(repr(st))
+                progs.insert(0, st)
+    ctx.coverage["corpus_programs"] = len(progs)
     n_rand = 60 if ctx.tier == "quick" else 350
     maxlen = 4 if ctx.tier == "quick" else 7
     for i in range(n_rand):
@@ -420,6 +429,7 @@ def run(ctx: core.Ctx):
         pass
     rnd = random.Random(ctx.seed + 1)
     progs = make_programs(ctx)
+    n_corpus = ctx.coverage.get("corpus_programs", N_CORPUS)
     items, metas = [], []
     hist = {"mode": {}, "len": {}, "table": {}, "dup_names": 0, "empty_result": 0, "actions": {}, "result_size": {}}
     order_dev = []
@@ -428,8 +438,8 @@ def run(ctx: core.Ctx):
     for pi, steps0 in enumerate(progs):
         cm, steps = mode_of(steps0)
         tnames = ["t1", "t2", "empty"] if ctx.tier != "quick" else (["t1" if pi % 2 else "t2"] + (["empty"] if pi % 4 == 0 else []))
-        if pi < N_CORPUS:
-            tnames = ["t1"] + (["empty"] if pi in (0, 3, 10) else [])
+        if pi < n_corpus:
+            tnames = ["t1"] + (["empty"] if steps0 in ([], [("limit", 0)]) or pi % 4 == 0 else [])
         for tname in tnames:
             rows = TABLES[tname]
             key = (repr(steps), tname)
@@ -588,7 +598,11 @@ def run(ctx: core.Ctx):
 def prove_refutations(ctx) -> dict:
     """compile every chunk of coq/props/C11_refuted.v on its own; -> {signature: coqc error} of those that failed"""
     import re
-    src = open(core.COQ + "/props/C11_refuted.v").read()
+    path0 = core.COQ + "/props/C11_refuted.v"
+    if not os.path.exists(path0):      # nothing is refuted at present (all listed defects are repaired)
+        ctx.coverage["refutations_checked"] = 0
+        return {}
+    src = open(path0).read()
     parts = re.split(r"\(\* == refutes: (\S+) == \*\)\n", src)
     pre, failed = parts[0], {}
     for k, (sig, body) in enumerate(zip(parts[1::2], parts[2::2])):
@@ -679,7 +693,7 @@ def spec_vs_pyspark(ctx) -> int:
 
 
 def names_vs_impl(ctx, rnd) -> int:
-    """Gen.unique_field_names == Row._unique_field_names on field lists incl. adversarial ones; clash_free => no duplicates"""
+    """Gen.unique_field_names == Row._unique_field_names on field lists incl. adversarial ones; never a duplicate"""
     from sqlframe.base.types import Row
     pool = ["a", "b", "a_1", "a_2", "a_0", "b_1", "a_1_2", "x", "_", "a_", "a_10", "A"]
     lists = [[], ["a"], ["a", "a"], ["a_2", "a", "a"], ["a", "a_2", "a"], ["a", "a", "a_1"], ["a", "a", "a", "a", "a", "a", "a", "a", "a", "a", "a", "a"],
@@ -688,7 +702,7 @@ def names_vs_impl(ctx, rnd) -> int:
         lists.append([rnd.choice(pool[:rnd.choice([2, 4, 12])]) for _ in range(rnd.randint(0, 6))])
     header = ("From SF Require Import C11.ActionsCheck.\nFrom Gen Require Import C11Facts.\nOpen Scope string_scope.\n"
               "Definition check (p : list string * list string) : string :=\n"
-              "  b2c (names_eqb (unique_field_names (fst p)) (snd p)) ++ b2c (clash_free (fst p)) ++ b2c (nodupb (snd p)).\n")
+              "  b2c (names_eqb (unique_field_names (fst p)) (snd p)) ++ b2c (nodupb (unique_field_names (fst p))) ++ b2c (nodupb (snd p)).\n")
     items = []
     impl = []
     for fs in lists:
@@ -702,11 +716,14 @@ def names_vs_impl(ctx, rnd) -> int:
     if bad:
         ctx.broken("T3:unique_field_names-impl-vs-generated", f"Row._unique_field_names({bad[0][0]}) = {bad[0][1]} differs from the generated function",
                    data=[list(b) for b in bad[:5]])
-    thm = [(fs, out) for fs, out, r in zip(lists, impl, res) if r is not None and r[1] == "1" and r[2] != "1"]
+    thm = [(fs, out) for fs, out, r in zip(lists, impl, res) if r is not None and r[1] != "1"]
     if thm:
-        ctx.broken("theorem-vs-evaluation:names", f"clash_free field list with a duplicate header: {thm[0]}")
-    ctx.coverage["unique_field_names_outside_clash_free"] = sum(1 for r in res if r is not None and r[1] == "0")
-    ctx.coverage["unique_field_names_with_duplicate_header"] = sum(1 for r in res if r is not None and r[2] == "0")
+        ctx.broken("theorem-vs-evaluation:names", f"the generated function returns a duplicate header (C11_names_holds says never): {thm[0]}")
+    dup = [(fs, out) for fs, out, r in zip(lists, impl, res) if r is not None and r[2] != "1"]
+    if dup:
+        ctx.deviation("C11/unique-field-names-returns-duplicate", "Row._unique_field_names returns a header with a repeated name",
+                      {"fields": dup[0][0], "returned": dup[0][1], "steps_json": [], "rows": [], "action": ["count"]})
+    ctx.coverage["unique_field_names_lists_with_repeated_input_names"] = sum(1 for fs in lists if has_dup(fs))
     return len(items)
 
 
